@@ -82,13 +82,13 @@ claimed = {
    technique="contract-based deductive verification: stream-position and byte-content postconditions over prophecy/ghost stream models, lemma function for the raw round trip",
    design="DESIGN.md §11 C05"),
  "C02": dict(
-   text="Proof against a transcription of the specifications into contracts, independent of the code: EncodeHeader emits exactly version|direction bit, flags, stream id (1 signed byte in v2, 2 bytes big-endian from v3), opcode, 4-byte big-endian length and refuses unsupported versions; DecodeHeader returns exactly those fields from exactly those bytes and accepts only versions 2,3,4,5,0x41,0x42 and opcodes whose direction (request/response tables of the specifications) matches the direction bit - over all 2^16 version/opcode bytes and all other header contents; [byte], [short], [int], [long], [string], [long string], [bytes] (null = -1), [short bytes], [unsigned vint]/[vint] writers emit and readers accept exactly the specified bytes for every value; the body prefix is [tracing id][warnings][custom payload] in that order - this obligation failed on the original tree (payload and warnings were swapped, symmetrically in encoder and decoder, hence invisible to round trips) and is fixed; query/batch/prepare/rows/variables flags are set exactly when their field is present.",
+   text="Proof against a transcription of the specifications into contracts, independent of the code: EncodeHeader emits exactly version|direction bit, flags, stream id (1 signed byte in v2, 2 bytes big-endian from v3), opcode, 4-byte big-endian length and refuses unsupported versions; DecodeHeader returns exactly those fields from exactly those bytes and accepts only versions 2,3,4,5,0x41,0x42 and opcodes whose direction (request/response tables of the specifications) matches the direction bit - over all 2^16 version/opcode bytes and all other header contents; [byte], [short], [int], [long], [string], [long string], [bytes] (null = -1), [short bytes], [unsigned vint]/[vint] writers emit and readers accept exactly the specified bytes for every value; the body prefix is [tracing id][warnings][custom payload] in that order - this obligation failed on the original tree (payload and warnings were swapped, symmetrically in encoder and decoder, hence invisible to round trips) and is fixed; query/batch/prepare/rows/variables flags are set exactly when their field is present; the QUERY/EXECUTE options and the RESULT Rows metadata prefix follow the specification's element order (token view; catches swaps made symmetrically in encoder and decoder).",
    note="PARTIAL: the body layout of the 17 messages (field order and presence per version), [value], [inet], [uuid], maps, lists and type descriptors are NOT covered; capability predicates per version are proved against specification tables under C19. The transcription of the specifications is the oracle. Read side of vints: value for encodings up to 6 bytes, byte count for all.",
    technique="contract-based deductive verification: byte-exact postconditions over ghost write streams and prophecy read streams, completely unrolled vint loops, header round-trip lemma",
    design="DESIGN.md §11 C02"),
  "C01": dict(
-   text="Proof of the frame-level part of the round trip: for every header with a supported version, an opcode of the matching direction and (v2) a stream id in [-128,127], EncodeHeader into a buffer succeeds and DecodeHeader of those bytes succeeds and returns the same direction, version, flags, stream id, opcode and body length; the same with an opaque body of any length (raw frames); and haveSameTable - which decides the GLOBAL_TABLES_SPEC flag under which the decoder copies one keyspace/table into every column - is true exactly when all columns share keyspace and table; and, message by message, Decode(Encode(m)) returns a message of the same kind with the same contents (strings and byte strings compared by length and byte by byte, nil tokens distinguished) for AUTHENTICATE, AUTH_RESPONSE, AUTH_CHALLENGE, AUTH_SUCCESS, OPTIONS, READY, PREPARE (query), REVISE, RESULT Void, RESULT SetKeyspace and the ten ERROR kinds carrying only a message - for all contents and versions.",
-   note="PARTIAL: fields following a variable-length field (UNAVAILABLE, READ/WRITE_TIMEOUT, ALREADY_EXISTS, UNPREPARED, PREPARE keyspace), map- and list-valued messages (STARTUP, SUPPORTED, REGISTER), QUERY/EXECUTE/BATCH options, RESULT Rows/Prepared/SchemaChange, EVENT, failure errors, the body prefix and compression are NOT decided by this check; lengths are C03, flag/body consistency C20, compression wrappers C08, constants C19.",
+   text="Proof of the frame-level part of the round trip: for every header with a supported version, an opcode of the matching direction and (v2) a stream id in [-128,127], EncodeHeader into a buffer succeeds and DecodeHeader of those bytes succeeds and returns the same direction, version, flags, stream id, opcode and body length; the same with an opaque body of any length (raw frames); and haveSameTable - which decides the GLOBAL_TABLES_SPEC flag under which the decoder copies one keyspace/table into every column - is true exactly when all columns share keyspace and table; and, message by message, Decode(Encode(m)) returns a message of the same kind with the same contents (strings and byte strings compared by length and byte by byte, nil tokens distinguished) for AUTHENTICATE, AUTH_RESPONSE, AUTH_CHALLENGE, AUTH_SUCCESS, OPTIONS, READY, PREPARE (query), REVISE, RESULT Void, RESULT SetKeyspace and the ten ERROR kinds carrying only a message; through the token view of the buffer (assumed token clauses of the notation writers/readers) also PREPARE with keyspace, STARTUP, QUERY with options (no bound values), UNAVAILABLE, READ_TIMEOUT, WRITE_TIMEOUT (version- and CAS-dependent contentions), ALREADY_EXISTS, UNPREPARED, FUNCTION_FAILURE, each with 'what Encode accepted Decode accepts'; every flag of query options, batch, prepare, rows and variables metadata is set exactly when its field is present - for all contents and versions.",
+   note="PARTIAL: SUPPORTED, REGISTER, EXECUTE, BATCH, bound values, RESULT Rows/Prepared/SchemaChange, EVENT, failure errors with reason maps and compression are NOT decided by this check; the token clauses of the notation writers/readers are ASSUMED (justified by their byte-level contracts under C02); lengths are C03, flag/body consistency C20, compression wrappers C08, constants C19.",
    technique="contract-based deductive verification: round-trip lemma functions over the real encoder and decoder with completeness clauses for in-memory buffers; loop invariant for the table-spec predicate",
    design="DESIGN.md §11 C01"),
  "C09": dict(
